@@ -123,6 +123,9 @@ def run_single(case, agg):
     with fresh_dir("c09") as d:
         i, o = os.path.join(d, "in.suit"), os.path.join(d, "out.suit")
         open(i, "wb").write(b)
+        pre = case["i"] % 3 == 1          # the output path already holds (longer) content, e.g. from an earlier build
+        if pre:
+            impl.prefill(o)
         try:
             if seed_slice(case["i"], 37):
                 s, k = scripts()
@@ -135,7 +138,9 @@ def run_single(case, agg):
                 sign_main(i, o, case["key"], case["alg"], case["action"])
         except Exception as e:
             if exp == "refuse":
-                if os.path.exists(o):
+                if pre and (not os.path.exists(o) or open(o, "rb").read() != impl.JUNK):
+                    agg.viol("C09:single/refusal-touched-output", f"{label}: refused ({type(e).__name__}) but the file that existed at the output path was modified or removed")
+                elif not pre and os.path.exists(o):
                     agg.viol("C09:single/refusal-left-output", f"{label}: refused ({type(e).__name__}) but an output file exists")
                 else:
                     agg.rej(key, f"refused:{type(e).__name__}", nontrivial=True)
@@ -348,12 +353,13 @@ def recursive_scenario(shape):
 def node_key(cfg):
     right = "p256" if cfg["alg"] == "es-256" else "ed25519"
     wrong = "ed25519" if cfg["alg"] == "es-256" else "p256"
-    return f"{wrong if cfg.get('mismatch') else right}_n{cfg['id']}"
+    # every other node's key has a dot in its name (a sibling "<kind>.pem" holding another key exists in both stores)
+    return f"{wrong if cfg.get('mismatch') else right}{'.' if cfg['id'] % 2 else '_'}n{cfg['id']}"
 
 
 def node_identity(cfg):
     """the harness key that must verify this node's signature: the key of that NAME in the node's effective context."""
-    return node_key(cfg) + ("_alt" if cfg.get("ctx") == "alt" else "")
+    return node_key(cfg).replace(".", "_") + ("_alt" if cfg.get("ctx") == "alt" else "")
 
 
 def node_kid(cfg):
@@ -435,7 +441,7 @@ def config_json(cfg, root=True, d=None):
     elif cfg.get("ctx_cfg") == "own-json":
         c["context"] = json.dumps({"keys_directory": vkeys.key_dir_alt()})
     if cfg.get("kms_cfg") == "own":
-        c["kms-script"] = os.path.join(d, "alt_kms.py") if d else "<scratch>/alt_kms.py"
+        c["kms-script"] = os.path.join(d, "alt", "basic_kms.py") if d else "<scratch>/alt/basic_kms.py"
     if cfg["mode"] in ("omit+keys", "omit-nokeys"):
         c["omit-signing"] = True
     if cfg["mode"] != "omit-nokeys":
@@ -497,7 +503,11 @@ def run_recursive(tree, ch, agg):
         i, o, cf = os.path.join(d, "in.suit"), os.path.join(d, "out.suit"), os.path.join(d, "cfg.json")
         open(i, "wb").write(b)
         json.dump(config_json(tree, True, d), open(cf, "w"))
-        with open(os.path.join(d, "alt_kms.py"), "w") as fh:
+        pre = key % 3 == 1
+        if pre:
+            impl.prefill(o)
+        os.makedirs(os.path.join(d, "alt"), exist_ok=True)
+        with open(os.path.join(d, "alt", "basic_kms.py"), "w") as fh:       # same file name as the stock script, another directory
             fh.write(ALT_KMS % (scripts()[1], vkeys.key_dir_alt()))
         saved = {k: os.environ.get(k) for k in ("NCS_SUIT_SIGN_SCRIPT", "NCS_SUIT_KMS_SCRIPT", "ZEPHYR_BASE")}
         if tree.get("scripts") == "environment":
@@ -533,7 +543,19 @@ def run_recursive(tree, ch, agg):
             os.environ["ZEPHYR_BASE"] = zb
         try:
             try:
-                cmd_sign.main(sign_subcommand="recursive", input_envelope=i, output_envelope=o, configuration=cf)
+                if key % 5 == 2:
+                    # library use: ONE loaded configuration object serves two signing runs (a retry, several builds); the
+                    # second run is the one judged
+                    cfgd = json.load(open(cf))
+                    res = None
+                    for _ in range(2):
+                        res = cmd_sign.RecursiveSigner(cmd_sign.load_envelope(i), cfgd, i).recursive_sign()
+                    label += " [library: second run with the same configuration object]"
+                    if res is None:
+                        raise ValueError("no envelope returned")
+                    cmd_sign.save_envelope(o, res)
+                else:
+                    cmd_sign.main(sign_subcommand="recursive", input_envelope=i, output_envelope=o, configuration=cf)
             finally:
                 for k, v in saved.items():
                     if v is None:
@@ -542,7 +564,9 @@ def run_recursive(tree, ch, agg):
                         os.environ[k] = v
         except Exception as e:
             if exp == "refuse":
-                if os.path.exists(o):
+                if pre and (not os.path.exists(o) or open(o, "rb").read() != impl.JUNK):
+                    agg.viol("C09:recursive/refusal-touched-output", f"{label}: refused but the file that existed at the output path was modified or removed")
+                elif not pre and os.path.exists(o):
                     agg.viol("C09:recursive/refusal-left-output", f"{label}: refused but wrote output")
                 else:
                     agg.rej(key, "refused", nontrivial=True)
